@@ -1563,6 +1563,9 @@ class Stage:
         cat = vcat if transpose else hcat
         res = cat(sub_expr)
         time = stage._method.control_grid
+        if not include_last:
+            # 'control-': one time point per sampled value
+            time = ca.vec(time)[:-1]
         return time, res
 
     def _grid_integrator(self, stage, expr, grid, include_first=True, include_last=True):
